@@ -33,8 +33,10 @@ def conditions(g, target, limit=5000):
             continue
         nd = g.nodes.get(node)
         for d, lab in g.succ[node]:
-            if lab == 'exc' or d in seen:
+            if d in seen:
                 continue
+            if lab == 'exc' and getattr(g.nodes.get(d), 'kind', '') != 'handler':
+                continue          # exceptions that leave the function; those caught by a handler of the function are followed
             c2 = conds
             if nd is not None and nd.kind == 'test' and lab in ('true', 'false'):
                 c2 = conds + [(nd.ast, lab == 'true')]
